@@ -97,10 +97,15 @@ def main():
         for key in keys_in_groups:
             for idx in ([100], [123], [7, 12], [1, 100], [12, 3, 45]):
                 names.setdefault(gen.name_of(key, idx), key)
+        # CPython's int() digit limit (4300): att2idx answers 0 beyond it (model and code must agree on both sides of the limit)
+        names["DF404_" + "1" * 4300] = "DF404"
+        names["DF404_" + "1" * 4301] = "DF404"
+        names["DF404_02_" + "7" * 4400] = "DF404"
         for nm, key in sorted(names.items()):
             exp, readable = obs_att(p, nm)
-            em.add("obs_att T (unpack %s)" % vlib.blob(nm.encode()), exp, [], "attribute name %s (data field %s)" % (nm, key),
-                   {"name": nm}, readable, explain='(att2idx "%s"%%string, att2name "%s"%%string, datadesc T "%s"%%string)' % (nm, nm, nm))
+            em.add("obs_att T (unpack %s)" % vlib.blob(nm.encode()), exp, [], "attribute name %s (data field %s)" % (nm[:60], key),
+                   {"name": nm}, readable if len(nm) < 100 else {"note": "long name"},
+                   explain=('(att2idx "%s"%%string, att2name "%s"%%string, datadesc T "%s"%%string)' % (nm, nm, nm)) if len(nm) < 100 else None)
             em.direct_evaluations += 1
             em.count("kind." + ("plain" if nm == key else "indexed%d" % (nm.count("_") - key.count("_"))))
             want_desc = tabs.DF[key][3]
@@ -113,6 +118,8 @@ def main():
                 em.violation("C19: datadesc(%r) is not the description of %s" % (nm, key), {"name": nm}, {"got": got, "expected": want_desc})
             if nm != key:
                 suffix = nm[len(key):]
+                if any(len(x) > 4300 for x in suffix.split("_")[1:]):
+                    continue        # beyond CPython's int() digit limit: not an index the parser can generate
                 idxs = [int(x) for x in suffix.split("_")[1:]]
                 want = idxs[0] if len(idxs) == 1 else tuple(idxs)
                 if "_" not in key:
